@@ -1024,7 +1024,12 @@ pub fn leechers(seed: u64) -> Plan {
             peer.bitfield = BitfieldMode::Omit;
         }
         let t_int = if many && crowd { 0 } else { r.range(1, 300) };
-        peer.script.push(step(When::At(t_int), Act::Send(Msg::Interested)));
+        // now and then a peer that asks without ever declaring interest: it is unchoked after its
+        // bitfield like anybody else, and loses the slot at the first rotation that acts
+        let undeclared = Rng64::sub(seed ^ j as u64, "leechers-undeclared").chance(1, 6) && !(many && crowd);
+        if !undeclared {
+            peer.script.push(step(When::At(t_int), Act::Send(Msg::Interested)));
+        }
         if many && crowd {
             // partial seeds are interesting to the client, so it accepts more than its eleven
             // outgoing connections and later has more than ten interested peers unchoked
